@@ -42,7 +42,7 @@ pub(crate) mod kani_verif {
         kani::cover!(from == to, "empty run reachable");
     }
 
-    // @h props=C07,C08!,C02,C01! tier=quick kind=proved cfg=w8 timeout=1800 funcs=HashChain::do_hash_chain;HashChain::do_actual_hash_chain;HashChain::prepare_hash_chain_data contract="do_hash_chain(i, v, from, to) iterates tmp = H(I||q||u16(i)||u8(j)||tmp) for j = from..to-1 and returns the last value; all from <= to <= 15 (complete for w in {1,2,4}), every I/q/i/start value, every hash function; n=16"
+    // @h props=C07,C08!,C02,C01 tier=quick kind=proved cfg=w8 timeout=1800 funcs=HashChain::do_hash_chain;HashChain::do_actual_hash_chain;HashChain::prepare_hash_chain_data contract="do_hash_chain(i, v, from, to) iterates tmp = H(I||q||u16(i)||u8(j)||tmp) for j = from..to-1 and returns the last value; all from <= to <= 15 (complete for w in {1,2,4}), every I/q/i/start value, every hash function; n=16"
     #[kani::proof]
     #[kani::stub(<[u8; 32] as tinyvec::Array>::default, fast_default)]
     #[kani::unwind(36)]
@@ -56,7 +56,7 @@ pub(crate) mod kani_verif {
     fn c07_chain_n32_to15() {
         check_chain::<32>(15, 15);
     }
-    // @h props=C07,C08!,C02,C01 tier=quick kind=bounded cfg=w8 timeout=1800 funcs=HashChain::do_hash_chain;HashChain::do_actual_hash_chain note="w=8: every start position 0..255 but runs of at most 3 iterations; longer runs follow by induction on the loop (same body for every j) - bounded stand-in" contract="same statement for to <= 255 and to - from <= 3 (w = 8 chains), n=16"
+    // @h props=C07,C08,C02,C01 tier=thorough kind=bounded cfg=w8 timeout=1800 funcs=HashChain::do_hash_chain;HashChain::do_actual_hash_chain note="w=8: every start position 0..255 but runs of at most 3 iterations; longer runs follow by induction on the loop (same body for every j) - bounded stand-in" contract="same statement for to <= 255 and to - from <= 3 (w = 8 chains), n=16"
     #[kani::proof]
     #[kani::stub(<[u8; 32] as tinyvec::Array>::default, fast_default)]
     #[kani::unwind(36)]
